@@ -460,6 +460,104 @@ func extraMenu2() []callT {
 	}
 }
 
+// extraMenu3 (round 12): calls that leave a validator through one of its early exits (a value that is no struct, a URL
+// without query string), calls whose walk is abandoned by a panicking function *behind a marker*, collections of structs
+// under an unscoped rule set, and two validator objects alive at the same time - with the ordinary calls they must not
+// disturb.
+func extraMenu3() []callT {
+	boom := func(errBuf *strings.Builder, validName, objName, fieldName string, tv reflect.Value) {
+		var m map[string]int
+		m[fieldName] = 1
+	}
+	recovered := func(f func() error) (res string) {
+		defer func() {
+			if r := recover(); r != nil {
+				res = "panicked: " + fmt.Sprint(r)
+			}
+		}()
+		return errText(f())
+	}
+	unscoped := func() valid.RM { return valid.RM{"F": "eq=9|unscoped-F", "G": "required|unscoped-G"} }
+	return []callT{
+		{"Struct(&int)", func() []interface{} { n := 5; return []interface{}{&n} },
+			func(a []interface{}) (string, []string) { return errText(valid.Struct(a[0])), nil }, nil},
+		{"Struct(string, rm)", func() []interface{} { return []interface{}{"abc", unscoped()} },
+			func(a []interface{}) (string, []string) { return errText(valid.Struct(a[0], a[1].(valid.RM))), nil }, nil},
+		{"Struct([]*T1, unscoped rm)", func() []interface{} {
+			return []interface{}{[]*T1{{F: "", G: 9}, {F: "abcd", G: 2}, {F: "", G: 0}}, unscoped()}
+		}, func(a []interface{}) (string, []string) { return errText(valid.Struct(a[0], a[1].(valid.RM))), nil }, nil},
+		{"Struct([2]T1, unscoped rm)", func() []interface{} {
+			return []interface{}{[2]T1{{F: "", G: 9}, {F: "abcd", G: 2}}, unscoped()}
+		}, func(a []interface{}) (string, []string) { return errText(valid.Struct(a[0], a[1].(valid.RM))), nil }, nil},
+		{"Struct(map[string]*T1 with one entry, unscoped rm)", func() []interface{} {
+			return []interface{}{map[string]*T1{"k": {F: "", G: 9}}, unscoped()}
+		}, func(a []interface{}) (string, []string) { return errText(valid.Struct(a[0], a[1].(valid.RM))), nil }, nil},
+		{"Struct(T1, unscoped rm)", func() []interface{} { return []interface{}{&T1{F: "", G: 9}, unscoped()} },
+			func(a []interface{}) (string, []string) { return errText(valid.Struct(a[0], a[1].(valid.RM))), nil }, nil},
+		{"Struct(Holder)", func() []interface{} { return []interface{}{holder()} },
+			func(a []interface{}) (string, []string) { return errText(valid.Struct(a[0])), nil }, nil},
+		{"StructForFns(Holder, marker followed by a function that panics) recovered", func() []interface{} { return []interface{}{holder()} },
+			func(a []interface{}) (string, []string) {
+				return recovered(func() error {
+					return valid.StructForFns(a[0], valid.RM{"N": "required,boom", "L": "exist,boom"}, valid.Name2FnMap{"boom": boom})
+				}), nil
+			}, nil},
+		{"StructForFns(Holder, function that panics inside a sub-object) recovered", func() []interface{} { return []interface{}{holder()} },
+			func(a []interface{}) (string, []string) {
+				return recovered(func() error {
+					return valid.NewVStruct().SetValidFn("boom", boom).SetRule(valid.RM{"G": "boom"}, T1{}).Valid(a[0])
+				}), nil
+			}, nil},
+		{"Url(k present, k required)", func() []interface{} {
+			return []interface{}{"http://h/p?k=abc&z=1", valid.RM{"k": "required|need-k"}}
+		}, func(a []interface{}) (string, []string) { return errText(valid.Url(a[0], a[1].(valid.RM))), nil }, nil},
+		{"Url(no query string, k required)", func() []interface{} {
+			return []interface{}{"http://h/p", valid.RM{"k": "required|need-k"}}
+		}, func(a []interface{}) (string, []string) { return errText(valid.Url(a[0], a[1].(valid.RM))), nil }, nil},
+		{"Url(empty query string, k required)", func() []interface{} {
+			return []interface{}{"http://h/p?", valid.RM{"k": "required|need-k"}}
+		}, func(a []interface{}) (string, []string) { return errText(valid.Url(a[0], a[1].(valid.RM))), nil }, nil},
+		{"Map(empty map, k required)", func() []interface{} {
+			return []interface{}{map[string]string{}, valid.RM{"k": "required|need-k"}}
+		}, func(a []interface{}) (string, []string) { return errText(valid.Map(a[0], a[1].(valid.RM))), nil }, nil},
+		{"two VVar objects alive together", func() []interface{} { return []interface{}{"abc"} },
+			func(a []interface{}) (string, []string) {
+				return recovered(func() error {
+					x, y := valid.NewVVar(), valid.NewVVar()
+					x.SetRules("to=1~2|x-short")
+					ex := x.Valid(a[0])
+					y.SetRules("in=(a/b)|y-in")
+					ey := y.Valid(a[0])
+					return fmt.Errorf("%v + %v", ex, ey)
+				}), nil
+			}, nil},
+		{"two VStruct objects alive together", func() []interface{} { return []interface{}{&T1{F: "", G: 9}} },
+			func(a []interface{}) (string, []string) {
+				return recovered(func() error {
+					x, y := valid.NewVStruct(), valid.NewVStruct()
+					y.SetRule(valid.RM{"G": "eq=7|y-G"})
+					ey := y.Valid(a[0])
+					x.SetRule(valid.RM{"F": "required|x-F"})
+					ex := x.Valid(a[0])
+					return fmt.Errorf("%v + %v", ex, ey)
+				}), nil
+			}, nil},
+		{"VUrl and VMap objects alive together", func() []interface{} { return []interface{}{"http://h/p?k=abc", map[string]string{"k": "abc"}} },
+			func(a []interface{}) (string, []string) {
+				return recovered(func() error {
+					x, y, z := valid.NewVUrl(), valid.NewVMap(), valid.NewVUrl()
+					x.SetRule(valid.RM{"k": "to=1~2|x-short"})
+					y.SetRule(valid.RM{"k": "to=5~6|y-long"})
+					z.SetRule(valid.RM{"j": "required|z-j"})
+					ey := y.Valid(a[1])
+					ez := z.Valid(a[0])
+					ex := x.Valid(a[0])
+					return fmt.Errorf("%v + %v + %v", ex, ey, ez)
+				}), nil
+			}, nil},
+	}
+}
+
 // canon makes a result independent of Go map iteration order (group clause order, member order inside a Map group clause).
 func canon(res string) string {
 	if !strings.Contains(res, "explain: they ") {
@@ -519,6 +617,8 @@ func run(c *runner.Ctx) {
 	menu = append(menu, extraMenu()...)
 	nExtra1 := len(menu)
 	menu = append(menu, extraMenu2()...)
+	nExtra2 := len(menu)
+	menu = append(menu, extraMenu3()...)
 	// fresh-state results (scheduler inactive, fresh cache), cross-checked with the model
 	fresh := make([]string, len(menu))
 	for i, cl := range menu {
@@ -747,7 +847,7 @@ func run(c *runner.Ctx) {
 	// the group / unique / abandoned calls with five calls of the main menu: every sequence up to length 3 (thorough: 4)
 	{
 		ext := []int{}
-		for i := nExtra1; i < len(menu); i++ {
+		for i := nExtra1; i < nExtra2; i++ {
 			ext = append(ext, i)
 		}
 		for i, cl := range menu[:nMain] {
@@ -762,6 +862,49 @@ func run(c *runner.Ctx) {
 		}
 		for l := 1; l <= maxE; l++ {
 			c.Space(fmt.Sprintf("group-unique-and-abandoned-calls/sequences-len%d", l))
+			total := 1
+			for i := 0; i < l; i++ {
+				total *= len(ext)
+			}
+			for x := 0; x < total; x++ {
+				if !c.Take() {
+					continue
+				}
+				seq := make([]int, l)
+				y := x
+				for i := l - 1; i >= 0; i-- {
+					seq[i] = ext[y%len(ext)]
+					y /= len(ext)
+				}
+				bd := 2
+				if l >= 4 {
+					bd = 1
+				}
+				explore(seq, bd)
+			}
+			if c.Expired() {
+				return
+			}
+		}
+	}
+	// round 12: early exits, abandoned walks behind a marker, unscoped rule sets over collections, validator objects alive together, with five calls of the main menu: every sequence up to length 3 (thorough: 4)
+	{
+		ext := []int{}
+		for i := nExtra2; i < len(menu); i++ {
+			ext = append(ext, i)
+		}
+		for i, cl := range menu[:nMain] {
+			switch cl.name {
+			case "Struct(T1)", "Struct(T4 groups)", "Var(quoted-fail)", "Map", "Url":
+				ext = append(ext, i)
+			}
+		}
+		maxE := 3
+		if c.Thorough() {
+			maxE = 4
+		}
+		for l := 1; l <= maxE; l++ {
+			c.Space(fmt.Sprintf("early-exits-unscoped-collections-and-objects-alive-together/sequences-len%d", l))
 			total := 1
 			for i := 0; i < l; i++ {
 				total *= len(ext)
@@ -868,7 +1011,7 @@ func main() {
 	runner.Main(runner.Config{
 		Property:  "C12",
 		Technique: "all call sequences/permutations up to a depth, single-threaded under the controlled scheduler with every sync.Pool.Get answer enumerated (deviation-bounded); fresh-state oracle + aliasing re-reads",
-		Rule: "40 heterogeneous calls + 12 in a second space of their own (either / botheq over a slice of maps and over URL parameters, unique over slices that hold NaN, calls abandoned by a caller-supplied function that panics - the caller recovers - through StructForFns / ValidStructForMyValidFn / VarForFn / MapFn / VUrl), every sequence <=3 (thorough 4) over these and five main calls; + 9 in a space of their own (file / dir rules on one path that is a file, a directory or absent at the time of the call; the explanation extractor on messages without explanation; the clause builders), every sequence <=3 (thorough 4) over these and five main calls; main menu: (calls rejected before validation although they carry rules, one rule-map object whose content differs from call to call, long unsorted slices under unique, datetime with custom and default separators, calls rejected before validation (unsupported / nil source), two rule sets registered in one call, struct with default tag / tag b / per-call rules / per-call functions, group rules over a slice, Var with quoted rules, Map, Url, a call returning before validation, splitter, builder+extractor); " +
+		Rule: "40 heterogeneous calls + 16 in a third space of their own (round 12: values rejected as no struct, URLs without or with an empty query string and empty maps under required, collections of structs under an unscoped rule set, walks abandoned by a panicking function behind a marker or inside a sub-object, two or three validator objects alive at the same time), every sequence <=3 (thorough 4) over these and five main calls; + 12 in a second space of their own (either / botheq over a slice of maps and over URL parameters, unique over slices that hold NaN, calls abandoned by a caller-supplied function that panics - the caller recovers - through StructForFns / ValidStructForMyValidFn / VarForFn / MapFn / VUrl), every sequence <=3 (thorough 4) over these and five main calls; + 9 in a space of their own (file / dir rules on one path that is a file, a directory or absent at the time of the call; the explanation extractor on messages without explanation; the clause builders), every sequence <=3 (thorough 4) over these and five main calls; main menu: (calls rejected before validation although they carry rules, one rule-map object whose content differs from call to call, long unsorted slices under unique, datetime with custom and default separators, calls rejected before validation (unsupported / nil source), two rule sets registered in one call, struct with default tag / tag b / per-call rules / per-call functions, group rules over a slice, Var with quoted rules, Map, Url, a call returning before validation, splitter, builder+extractor); " +
 			"all sequences of length<=3 (thorough: <=4), all sequences of length 3 again on a one-entry type cache after 0..5 evictions, and all permutations of 4-subsets; per sequence every Pool.Get answer (top / other pooled object / New) within the deviation bound; per call: result = fresh-state result (= model for struct calls), " +
 			"arguments deep-equal to a fresh copy, every previously handed-out error string / rule token re-compared with its detached copy; transitions = scheduling steps; states = distinct result vectors; non-trivial = sequences of >=2 calls",
 		Assumptions: []string{"pool answers are owned by the scheduler shim (sync.Pool replaced through the build overlay)", "global type cache fresh per execution (delegating CacheEr)"},
